@@ -111,6 +111,7 @@ func (st *State) primitive(f *ssa.Function, args []Val, site ssa.Instruction) (V
 		v := st.load(p, false)
 		tv := v.(TV)
 		tv.Typ = f.Signature.Results().At(0).Type()
+		vc.runGhostLoad(st, p)
 		return tv, true
 	case "(*sync/atomic.Uint32).Store", "(*sync/atomic.Uint64).Store", "(*sync/atomic.Bool).Store", "(*sync/atomic.Value).Store":
 		p := recvPtr()
@@ -167,13 +168,34 @@ func (st *State) primitive(f *ssa.Function, args []Val, site ssa.Instruction) (V
 		st.ghostCount("broadcasts", c)
 		return TupleV{}, true
 	case "(*sync.Cond).Wait":
-		// releases the lock, other goroutines run: havoc every shared key
-		for k := range vc.keySort {
-			if k != allocKey && !strings.HasPrefix(k, "CH:cap") {
-				st.havocKey(k)
+		// releases the lock, other goroutines run: what they may change is what this function's contract lists in `modifies`;
+		// what they keep is stated by its `rely` clauses (assumptions about the environment, reported as such)
+		if vc.fc != nil && len(vc.fc.clauses("modifies")) > 0 {
+			ec := st.evalCtx()
+			ec.names = st.topNames()
+			for _, c := range vc.fc.clauses("modifies") {
+				for _, tgt := range splitTargets(c.Text) {
+					ec.havocTarget(tgt)
+				}
 			}
+			for _, c := range vc.fc.clauses("rely") {
+				e, err := c.expr()
+				if err != nil {
+					fail("%v", err)
+				}
+				ec2 := st.evalCtx()
+				ec2.names = st.topNames()
+				st.assume(ec2.evalBool(e))
+				vc.assumptionsUsed["rely of "+vc.key+" while parked in Cond.Wait: "+c.Text] = true
+			}
+		} else {
+			for k := range vc.keySort {
+				if k != allocKey && !strings.HasPrefix(k, "CH:cap") {
+					st.havocKey(k)
+				}
+			}
+			vc.assumptionsUsed["sync.Cond.Wait: arbitrary interference while parked (all heap state havocked)"] = true
 		}
-		vc.assumptionsUsed["sync.Cond.Wait: arbitrary interference while parked (all heap state havocked)"] = true
 		return TupleV{}, true
 	case "(*sync.Pool).Get":
 		r := st.declare("poolget", SInt)
@@ -411,7 +433,7 @@ type ghostStmt struct {
 	clause *Clause
 }
 
-var ghostRe = regexp.MustCompile(`^(entry|at return|after call|before call|at go|after store)\s*((?:[^:#]|::)*?)(?:#(\d+))?\s*(?:when\s+(.*?))?:\s(.*)$`)
+var ghostRe = regexp.MustCompile(`^(entry|at return|after call|before call|at go|after store|after load)\s*((?:[^:#]|::)*?)(?:#(\d+))?\s*(?:when\s+(.*?))?:\s(.*)$`)
 
 func (vc *VC) parseGhostStmts() {
 	if vc.fc == nil {
@@ -509,6 +531,18 @@ func calleeMatches(pat, name string) bool {
 	}
 	// allow omitting the package prefix and matching by suffix
 	return strings.HasSuffix(name, "."+pat)
+}
+
+// runGhostLoad: "after load <field>" anchors fire after an atomic Load of that field, also inside inlined getters (IsRunning ...).
+func (vc *VC) runGhostLoad(st *State, p PtrV) {
+	for _, g := range vc.ghostAnchors {
+		if g.anchor != "after load" {
+			continue
+		}
+		if g.callee == p.Path || strings.HasSuffix(p.Path, "."+g.callee) {
+			vc.execGhost(st, g)
+		}
+	}
 }
 
 func (vc *VC) runGhostStore(st *State, p PtrV) {
